@@ -31,6 +31,15 @@ def spell(rng, base):
     return s
 
 
+def respell(rng, key):
+    """another spelling of an already folded key"""
+    r = rng.random()
+    s = key if r < 0.25 else key.upper() if r < 0.5 else ''.join(ch.upper() if rng.random() < 0.5 else ch for ch in key)
+    if rng.random() < 0.25:
+        s = s + '(' + rng.choice(DIMS) + ')'
+    return s
+
+
 def pick_name(rng, edge=False):
     if edge and rng.random() < 0.5:
         return rng.choice(EDGE_NAMES)
@@ -504,7 +513,7 @@ class C12(Property):
     id = 'C12'
     imports = ['models.M_C12']
     theorem_file = 'theories/props/T_C12.v'
-    shard = 60
+    shard = 110
     rule = ('random operation histories (quick: length 8-60) on real Scope/SymbolTable objects: 1-4 nested scopes created first ("sym-stack"), '
             'or a growing graph of scopes with sibling scopes, SymbolTable.clone([parent=]) and Scope._reset_parent ("sym-graph"); operations '
             'set/setdefault/update(dict|pairs)/[]/get/lookup(recursive?)/in/del/pop/clone/declare/Scope.update/get_type/get_symbol_scope plus creation and '
@@ -512,9 +521,9 @@ class C12(Property):
             'names = 6 base names x case variants x name(dims) forms, an edge stream adds malformed names ("", "(x", "a(b(c))", blanks, "%"); '
             'histories for CaseInsensitiveDict / CaseInsensitiveDefaultDict (str, int and tuple keys; constructor data, update, setdefault, factory). '
             'Compared per operation: output (value content, fresh reference number, None/default/bool/exception name) and at the end the ordered items of every '
-            'table, its parent link and the content of every object the caller holds. Drawn from the class where the code meets the property: no '
-            'SymbolTable.clone() without parent= below an EMPTY parent table, no upper-case str keys in update/setdefault/constructor data of the defaultdict flavour '
-            '(witnesses of both are known findings). Non-trivial = at least one successful look-up and two spellings of one folded name; distinct = distinct histories.')
+            'table, its parent link and the content of every object the caller holds. Symbol-table histories are unrestricted (clone() with and without parent=, '
+            'below empty and non-empty parents); dictionary histories are drawn from the class where the code meets the property: no upper-case str keys in '
+            'update/setdefault/constructor data of the defaultdict flavour (witnesses are known finding F7b). Non-trivial = at least one successful look-up and two spellings of one folded name; distinct = distinct histories.')
     modelled_not_verified = [
         'SymbolAttributes is reduced to (BasicType code, value of one attribute "tag"); SymbolAttributes.clone/compare themselves are not modelled',
         'str.lower() is modelled on ASCII text (A-Z); names with non-ASCII letters are outside the generated class',
@@ -541,6 +550,15 @@ class C12(Property):
             nt, no = len(ref.tabs), len(ref.objs)
             t = rng.randrange(nt) if rng.random() < 0.7 else nt - 1
             name = pick_name(rng, edge)
+            if rng.random() < 0.45:
+                # a name that is bound somewhere on the chain of t (or anywhere), spelled differently
+                keys, q, seen = [], t, set()
+                while q is not None and q not in seen:
+                    seen.add(q); keys += list(ref.tabs[q]); q = ref.parent[q]
+                if not keys or rng.random() < 0.15:
+                    keys = [k for tb in ref.tabs for k in tb]
+                if keys:
+                    name = respell(rng, rng.choice(keys))
             r = rng.random()
             before = len(ref.objs)
             if no == 0 or r < 0.10:
@@ -585,9 +603,8 @@ class C12(Property):
                 if q < 0.35:
                     emit(['scope', rng.choice(scoped + [None])])
                 elif q < 0.75:
-                    p = ref.parent[t]
-                    if rng.random() < 0.5 and (p is None or ref.tabs[p]):
-                        emit(['clone', t, 'keep'])        # inside the class: parent absent or non-empty
+                    if rng.random() < 0.5:
+                        emit(['clone', t, 'keep'])        # parent absent, empty or non-empty (F7c repaired by 0d55598)
                     else:
                         emit(['clone', t, 'set', rng.choice(list(range(nt)) + [None])])
                 else:
@@ -635,7 +652,7 @@ class C12(Property):
 
     def generate(self, rng, tier):
         quick = tier == 'quick'
-        n_stack, n_graph, n_edge, n_dict = (420, 420, 80, 260) if quick else (5000, 5000, 800, 2500)
+        n_stack, n_graph, n_edge, n_dict = (380, 380, 80, 230) if quick else (3000, 3000, 500, 1500)
         maxlen = 60 if quick else 90
         for _ in range(n_stack): yield self.gen_sym(rng, 'sym-stack', rng.randint(8, maxlen))
         for _ in range(n_graph): yield self.gen_sym(rng, 'sym-graph', rng.randint(8, maxlen))
